@@ -5,6 +5,7 @@ import (
 	"crypto/sha256"
 	"encoding/hex"
 	"fmt"
+	"io"
 	"os"
 	"os/exec"
 	"path/filepath"
@@ -206,9 +207,31 @@ func c20Work(s *c20Shared, workload string, iters int) string {
 				n := bindnode.Wrap(&inferMe{A: "x"}, nil)
 				put(termOf(n))
 			}()
-		case "stream": // a stream-backed bytes node read from several goroutines
+		case "stream": // a stream-backed bytes node read from several goroutines: whole reads, length probes, positioned reads, subset matches
 			b, err := s.stream.AsBytes()
 			put(fmt.Sprint(string(b), err))
+			if lb, ok := s.stream.(datamodel.LargeBytesNode); ok {
+				if rs, err := lb.AsLargeBytes(); err == nil {
+					// many short operations, so that probes and reads of different goroutines really overlap
+					for rep := 0; rep < 200; rep++ {
+						size, err := rs.Seek(0, io.SeekEnd)
+						put(fmt.Sprint(size, err))
+						off := int64((it + rep) % 7)
+						rs.Seek(off, io.SeekStart)
+						part := make([]byte, 5)
+						k, _ := io.ReadFull(rs, part)
+						put(string(part[:k]))
+					}
+				}
+			}
+			mm := func(k string, v core.Val) core.Val { return core.Map(core.KV{K: []byte(k), V: v}) }
+			if sel, st := core.CompileSel(mm(".", mm("subset", core.Map(core.KV{K: []byte("["), V: core.Int(int64(it % 5))}, core.KV{K: []byte("]"), V: core.Int(int64(it%5 + 9))})))); st == "" {
+				traversal.WalkMatching(s.stream, sel, func(p traversal.Progress, m datamodel.Node) error {
+					mb, err := m.AsBytes()
+					put(fmt.Sprint(string(mb), err))
+					return nil
+				})
+			}
 		}
 	}
 	return hex.EncodeToString(h.Sum(nil))
@@ -235,8 +258,11 @@ func RaceChild(args []string) int {
 		// the first inference has to happen somewhere; do the sequential run first only for the other workloads
 		runtime.GOMAXPROCS(4)
 	}
+	// cold: the goroutines are the first users of everything (lazily built tables, caches, first reads);
+	// otherwise a sequential reference run comes first
+	cold := len(args) > 4 && args[4] == "cold"
 	var seq string
-	if workload != "infer" {
+	if workload != "infer" && !cold {
 		seq = c20Work(s, workload, iters)
 		fmt.Println("seq", seq)
 	}
@@ -250,6 +276,9 @@ func RaceChild(args []string) int {
 		}(i)
 	}
 	wg.Wait()
+	if workload != "infer" && cold {
+		fmt.Println("seq", c20Work(s, workload, iters))
+	}
 	for i, d := range out {
 		fmt.Println("g", i, d)
 	}
@@ -311,13 +340,13 @@ func runC20(c *core.Ctx) error {
 	if _, err := os.Stat(raceBinary()); err != nil {
 		return fmt.Errorf("race-instrumented harness %s not built: %v", raceBinary(), err)
 	}
-	runOne := func(workload string, g, procs, iters int, seed uint64) (sigs []string, sample string, digests []string, seq string, err error) {
+	runOne := func(workload string, g, procs, iters int, seed uint64, mode ...string) (sigs []string, sample string, digests []string, seq string, err error) {
 		dir, err := os.MkdirTemp("", "verif-c20-")
 		if err != nil {
 			return nil, "", nil, "", err
 		}
 		defer os.RemoveAll(dir)
-		cmd := exec.Command(raceBinary(), "race-child", workload, fmt.Sprint(seed), fmt.Sprint(g), fmt.Sprint(iters))
+		cmd := exec.Command(raceBinary(), append([]string{"race-child", workload, fmt.Sprint(seed), fmt.Sprint(g), fmt.Sprint(iters)}, mode...)...)
 		cmd.Env = append(os.Environ(), "GORACE=log_path="+filepath.Join(dir, "race")+" halt_on_error=0 exitcode=0", fmt.Sprintf("GOMAXPROCS=%d", procs))
 		out, rerr := cmd.CombinedOutput()
 		for _, l := range strings.Split(string(out), "\n") {
@@ -336,13 +365,14 @@ func runC20(c *core.Ctx) error {
 		return sigs, sample, digests, seq, nil
 	}
 	rounds := c.Pick(1, 12)
-	for _, workload := range []string{"nodes", "walk", "links", "bind", "gen"} {
-		for round := 0; round < rounds; round++ {
-			g := []int{8, 4, 16}[round%3]
-			procs := []int{8, 2, 16, 4}[round%4]
-			seed := c.Seed*100 + uint64(round)
-			sigs, sample, digests, seq, err := runOne(workload, g, procs, c.Pick(6, 30), seed)
-			caseID := fmt.Sprintf("c20.race %s goroutines=%d GOMAXPROCS=%d seed=%d", workload, g, procs, seed)
+	for _, workload := range []string{"nodes", "walk", "links", "bind", "gen", "stream"} {
+		for round := 0; round < 2*rounds; round++ {
+			g := []int{8, 4, 16}[(round/2)%3]
+			procs := []int{8, 2, 16, 4}[(round/2)%4]
+			seed := c.Seed*100 + uint64(round/2)
+			mode := []string{"warm", "cold"}[round%2]
+			sigs, sample, digests, seq, err := runOne(workload, g, procs, c.Pick(6, 30), seed, mode)
+			caseID := fmt.Sprintf("c20.race %s %s goroutines=%d GOMAXPROCS=%d seed=%d", workload, mode, g, procs, seed)
 			if err != nil {
 				return err
 			}
@@ -376,12 +406,6 @@ func runC20(c *core.Ctx) error {
 		c.KnownWitness("C20/bindnode-inferred-schema-writes-package-level-typesystem", racy || panicked, "8 goroutines calling bindnode.Wrap(&T{}, nil): "+truncateStr(strings.Join(sigs, ","), 200))
 		c.Count("c20.race infer", true)
 		c.Dist("workload:infer(known)")
-	}
-	{
-		sigs, _, _, _, _ := runOne("stream", 8, 8, 20, c.Seed)
-		c.KnownWitness("C20/stream-backed-bytes-share-one-reader", len(sigs) > 0, "8 goroutines reading one NewBytesFromReader node: "+truncateStr(strings.Join(sigs, ","), 200))
-		c.Count("c20.race stream", true)
-		c.Dist("workload:stream(known)")
 	}
 	return nil
 }
